@@ -97,5 +97,89 @@ func runInflight(args []string) error {
 			}
 		}
 	}
+	// C07: the re-read under the refresh lock must see what the previous lock holder stored. Here another request's store read has
+	// been executed BEFORE that write but is delivered AFTER it (all three requests on one replica): if the re-read is served by that
+	// older read, the spent refresh token is presented again.
+	for _, redis := range []bool{true} {
+		for _, waiter := range []string{"r", "p", "f"} {
+			for _, reader := range []string{"i", "p", "r"} {
+				synctest.Run(func() {
+					s, err := newStack(stackOpts{redis: redis, maxLifetime: 5 * time.Hour, useSecret: true, updAtomic: true, fwdAuth: true})
+					if err != nil {
+						rerr = err
+						return
+					}
+					defer s.close()
+					s.idp.tau = 3600
+					lr, err := s.login("sid-1", "idporten-loa-high")
+					if err != nil {
+						rerr = err
+						return
+					}
+					time.Sleep(3601 * time.Second)
+					pend := func(th *hthread) string {
+						s.ctl.mu.Lock()
+						defer s.ctl.mu.Unlock()
+						if th.done {
+							return "done"
+						}
+						if th.atGate {
+							return th.pending
+						}
+						return "-"
+					}
+					a := s.spawn(1, reqSpec{kind: "p", cookie: lr.cookie})
+					for i := 0; i < 8 && pend(a) != "idp"; i++ { // read, lock, re-read: A is at the provider
+						s.stepThread(1, time.Second)
+					}
+					atProvider := pend(a) == "idp"
+					b := s.spawn(3, reqSpec{kind: waiter, cookie: lr.cookie})
+					s.stepThread(3, time.Second) // read (old tokens)
+					s.stepThread(3, time.Second) // lock attempt: held by A
+					c := s.spawn(5, reqSpec{kind: reader, cookie: lr.cookie, replyGate: true})
+					s.stepThread(5, time.Second) // C's read is executed (old tokens), its reply held back
+					held := pend(c) == "reply"
+					for i := 0; i < 60 && s.stepThread(1, time.Second) == "ran"; i++ { // A: grant, store, unlock
+					}
+					bBlocked := false
+					for i := 0; i < 400; i++ {
+						x := s.stepThread(3, 300*time.Millisecond)
+						if x == "blocked" {
+							bBlocked = true // B waits for something that is not a store / lock / provider operation: C's undelivered read
+							break
+						}
+						if x == "done" {
+							break
+						}
+					}
+					for i := 0; i < 400; i++ { // the delayed reply arrives; everything runs to its end
+						x, y := s.stepThread(5, 300*time.Millisecond), s.stepThread(3, 300*time.Millisecond)
+						if x != "ran" && y != "ran" {
+							break
+						}
+					}
+					s.idp.mu.Lock()
+					var presented []map[string]any
+					for _, l := range s.idp.log {
+						if l.Kind == "refresh" {
+							presented = append(presented, map[string]any{"rt": tokenID(l.RT), "accepted": l.Accepted})
+						}
+					}
+					s.idp.mu.Unlock()
+					rec := map[string]any{"kind": "reread", "redis": redis, "waiter": waiter, "reader": reader, "holder_was_at_provider": atProvider, "reply_held": held,
+						"waiter_blocked_on_reader": bBlocked,
+						"holder_outcome":           s.outcomeCode(a), "waiter_outcome": s.outcomeCode(b), "reader_outcome": s.outcomeCode(c), "presented": presented,
+						"all_done": a.done && b.done && c.done}
+					s.drainAll()
+					bb, _ := json.Marshal(rec)
+					w.Write(bb)
+					w.WriteByte('\n')
+				})
+				if rerr != nil {
+					return rerr
+				}
+			}
+		}
+	}
 	return nil
 }
